@@ -33,7 +33,12 @@ from cxx2lean import Refuse, kids, qtype, peel  # noqa: E402
 TU = "mep_ops_tu.cc"
 
 # variable numbering (GenSem.lean)
-V_ROWS, V_PATCH, V_CATS, V_I, V_C, V_D0, V_D1, V_P0, V_P1, V_N, V_K = range(11)
+V_ROWS, V_PATCH, V_CATS, V_I, V_C, V_D0, V_D1, V_P0, V_P1, V_N, V_K, V_CODELEN, V_SSCATS = range(13)
+# V_ROWS / V_CATS are the INDIVIDUAL's own size() / categories(); V_PATCH, V_CODELEN, V_SSCATS are read from the
+# problem handed to the operator (env.mep.patch_length, env.mep.code_length, sset.categories()): the tables record
+# WHICH quantity every bound uses, the gen_* theorems quantify over environments that do not fit the individual
+
+LEAVES = ("lit", "size", "cats", "patch", "codelen", "sscats", "v")
 
 UNSIGNED = {"unsigned long", "const unsigned long", "unsigned int", "const unsigned int",
             "std::size_t", "const std::size_t"}
@@ -125,7 +130,8 @@ def free_call(n):
 
 
 # ------------------------------------------------------------------ symbolic integer expressions
-# ('lit', n) ('var', name) ('add'|'sub', a, b) ('lt'|'gt'|'le'|'ge'|'ne'|'eq', a, b) ('size',) ('cats',) ('patch',)
+# ('lit', n) ('var', name) ('add'|'sub', a, b) ('lt'|'gt'|'le'|'ge'|'ne'|'eq', a, b) ('ite', c, a, b)
+# ('size',) ('cats',) own geometry of an individual; ('patch',) ('codelen',) ('sscats',) fields of the problem
 class Scope:
     """const integer locals are substituted by their definition; loop / draw / parameter variables
     stay symbolic until the write that uses them decides their role"""
@@ -154,6 +160,9 @@ class Scope:
                 raise Refuse("integer operator %r" % n.get("opcode"))
             a, b = kids(n)
             return (op, self.expr(a), self.expr(b))
+        if k == "ConditionalOperator":
+            c, a, b = kids(n)
+            return ("ite", self.expr(c), self.expr(a), self.expr(b))
         mc = member_call(n)
         if mc is not None:
             ch, meth, args = mc
@@ -162,17 +171,29 @@ class Scope:
                     return ("size",)
                 if meth == "categories":
                     return ("cats",)
+            if ch and len(ch) == 2 and ch[0][1:] in self.problems and ch[1] == "sset" and meth == "categories" and not args:
+                return ("sscats",)
             raise Refuse("member call %s.%s in an integer expression" % (ch, meth))
         ch = member_chain(n)
-        if ch and len(ch) == 4 and ch[0][1:] in self.problems and ch[1:] == ["env", "mep", "patch_length"]:
-            return ("patch",)
+        if ch and len(ch) == 4 and ch[0][1:] in self.problems and ch[1:3] == ["env", "mep"]:
+            if ch[3] == "patch_length":
+                return ("patch",)
+            if ch[3] == "code_length":
+                return ("codelen",)
         raise Refuse("integer expression of kind %s" % k)
+
+    def fork(self):
+        """a copy for a nested block (its locals go out of scope at the end of the block)"""
+        sc = Scope(self.individuals, self.problems)
+        sc.defs = dict(self.defs)
+        sc.sym = set(self.sym)
+        return sc
 
 
 def subst(e, m):
     if e[0] == "var":
         return m.get(e[1], e)
-    if e[0] in ("lit", "size", "cats", "patch", "v"):
+    if e[0] in LEAVES:
         return e
     return (e[0],) + tuple(subst(x, m) for x in e[1:])
 
@@ -181,7 +202,7 @@ def free_vars(e, out=None):
     out = set() if out is None else out
     if e[0] == "var":
         out.add(e[1])
-    elif e[0] not in ("lit", "size", "cats", "patch", "v"):
+    elif e[0] not in LEAVES:
         for x in e[1:]:
             free_vars(x, out)
     return out
@@ -199,6 +220,12 @@ def lean_e(e):
         return "(.var %d)" % V_CATS
     if t == "patch":
         return "(.var %d)" % V_PATCH
+    if t == "codelen":
+        return "(.var %d)" % V_CODELEN
+    if t == "sscats":
+        return "(.var %d)" % V_SSCATS
+    if t == "ite":
+        return "(.ite %s %s %s)" % (lean_e(e[1]), lean_e(e[2]), lean_e(e[3]))
     if t in ("add", "sub"):
         return "(.bin .%s .i64 %s %s)" % (t, lean_e(e[1]), lean_e(e[2]))
     if t in ("lt", "gt", "le", "ge", "ne", "eq"):
@@ -547,17 +574,11 @@ def tr_ctor(res):
         raise Refuse("i_mep(problem): %d member initialisers" % len(inits))
     # genome_(p.env.mep.code_length, p.sset.categories())
     g = peel(kids(inits[1])[0]) if kids(inits[1]) else None
-    dims = []
-    if g is not None and g.get("kind") == "CXXConstructExpr" and "matrix" in qtype(g):
-        for a in kids(g):
-            ch = member_chain(a)
-            mc = member_call(a)
-            if ch:
-                dims.append(".".join(ch)[1:])
-            elif mc:
-                dims.append(".".join(mc[0])[1:] + "." + mc[1] + "()")
-    if dims != [p + ".env.mep.code_length", p + ".sset.categories()"]:
-        raise Refuse("genome_ is not built as (code_length, categories()): %r" % (dims,))
+    if not (g is not None and g.get("kind") == "CXXConstructExpr" and "matrix" in qtype(g) and len(kids(g)) == 2):
+        raise Refuse("genome_ is not built as matrix(rows, columns)")
+    scd = Scope([], [p])
+    # which quantities give the genome its size: integer expressions over the fields of the problem
+    res["ctorDims"] = [scd.expr(a) for a in kids(g)]
     b = peel(kids(inits[2])[0])
     if b.get("kind") != "InitListExpr" or len(kids(b)) != 2:
         raise Refuse("best_ initialiser")
@@ -585,28 +606,37 @@ def tr_ctor(res):
     res["ctorBest"] = best
 
 
-def tr_mutation(res):
-    docs = X.ast_dump(TU, "vita::i_mep::mutation")
-    d = find_decl(docs, "CXXMethodDecl", "mutation")[0]
-    ps = params_of(d)
-    pgm, prb = ps[0].get("name"), ps[1].get("name")
-    sc = Scope(["this"], [prb])
-    cx = Ctx(sc, "$this", sset=[("$" + prb, "sset")])
+INT_CMP = ("<", ">", "<=", ">=", "==", "!=")
+
+
+def mutation_block(stmts, sc, sset, pgm, top):
+    """One `{ unsigned n(0); …; for (i = begin(); i != end(); ++i) if (boolean(pgm)) {…}; if (n) clear; return n; }`
+    block of i_mep::mutation.  A leading `if (<integer comparison>) { <block> }` (a special case decided on the
+    sizes before the loop, each branch a complete block that returns) yields a conditional candidate.
+    Returns (candidate gene `Src`, shape)."""
+    cx = Ctx(sc, "$this", sset=sset)
     shape = {"iter": None, "coin": None, "cand": None, "guard": None, "count": False, "assign": False}
     counter = None
-    for st in kids(body_of(d)):
+    returned = False
+    for pos, st in enumerate(stmts):
         k = st.get("kind")
         if k == "NullStmt":
             continue
+        if returned:
+            raise Refuse("mutation: statement after the return")
         if k == "DeclStmt":
             v = kids(st)[0]
             if qtype(v) == "unsigned int" and strip(kids(v)[0]).get("kind") == "IntegerLiteral" and counter is None \
                     and int(strip(kids(v)[0]).get("value")) == 0:
                 counter = v.get("name")
+                if counter in sc.defs or counter in sc.sym:
+                    raise Refuse("mutation: counter %r shadows an earlier name" % counter)
                 continue
             cx.decl(v)
             continue
         if k == "ForStmt":
+            if shape["iter"] is not None:
+                raise Refuse("mutation: two loops in one block")
             init, condvar, cond, inc, body = st.get("inner")
             it = kids(init)[0]
             itname = it.get("name")
@@ -676,18 +706,42 @@ def tr_mutation(res):
             continue
         if k == "IfStmt":
             ks = kids(st)
-            if unbool(ks[0]).get("referencedDecl", {}).get("name") == counter and cx.ignorable(ks[1]):
+            c0 = strip(ks[0])
+            if counter is not None and len(ks) == 2 and unbool(ks[0]).get("referencedDecl", {}).get("name") == counter \
+                    and cx.ignorable(ks[1]):
                 continue
-            raise Refuse("mutation: trailing if")
+            if c0.get("kind") == "BinaryOperator" and c0.get("opcode") in INT_CMP and len(ks) == 2 and \
+                    ks[1].get("kind") == "CompoundStmt" and counter is None and shape["iter"] is None:
+                # a case split on the sizes, decided before anything is drawn: each branch is a whole block
+                cnd = sc.expr(c0)
+                then_src, then_shape = mutation_block(kids(ks[1]), sc.fork(), sset, pgm, False)
+                else_src, else_shape = mutation_block(stmts[pos + 1:], sc, sset, pgm, False)
+                if then_shape != else_shape:
+                    raise Refuse("mutation: the two cases do not have the same shape: %r / %r" % (then_shape, else_shape))
+                return ("cond", cnd, then_src, else_src), then_shape
+            raise Refuse("mutation: if statement with an unknown condition")
         if k == "ReturnStmt":
-            if strip(kids(st)[0]).get("referencedDecl", {}).get("name") != counter:
+            if counter is None or strip(kids(st)[0]).get("referencedDecl", {}).get("name") != counter:
                 raise Refuse("mutation does not return its counter")
+            returned = True
             continue
-        raise Refuse("mutation: top-level statement %s" % k)
+        raise Refuse("mutation: statement %s" % k)
+    if not returned:
+        raise Refuse("mutation: a block does not end with `return <counter>`")
     if None in (shape["iter"], shape["coin"], shape["cand"], shape["guard"]) or not (shape["count"] and shape["assign"]):
         raise Refuse("mutation: incomplete shape %r" % {k: v for k, v in shape.items() if k != "cand"})
-    res["mutationCand"] = shape["cand"]
-    res["mutationShape"] = [shape["iter"], "bernoulli(" + shape["coin"] + ")", shape["guard"], "count", "assign"]
+    return shape["cand"], [shape["iter"], "bernoulli(" + shape["coin"] + ")", shape["guard"], "count", "assign"]
+
+
+def tr_mutation(res):
+    docs = X.ast_dump(TU, "vita::i_mep::mutation")
+    d = find_decl(docs, "CXXMethodDecl", "mutation")[0]
+    ps = params_of(d)
+    pgm, prb = ps[0].get("name"), ps[1].get("name")
+    sc = Scope(["this"], [prb])
+    cand, shape = mutation_block(kids(body_of(d)), sc, [("$" + prb, "sset")], pgm, True)
+    res["mutationCand"] = cand
+    res["mutationShape"] = shape
 
 
 def tr_crossover(res):
@@ -1159,9 +1213,530 @@ def tr_team(res):
     res["teamCrossover"] = {"range": rng, "op": "member[k]:=crossover(%s[k],%s[k])" % tuple(who), "n": "lhs.individuals()"}
 
 
+# ------------------------------------------------------------------ symbol_set.cc: roulette
+SS_TU = "symbol_set_tu.cc"
+
+
+def view_of(n, cparam):
+    """'functions' for `views_[c].functions` (the category must be the parameter)"""
+    ch = peel_base(n)
+    if ch.get("kind") != "MemberExpr":
+        raise Refuse("roulette: not a view of a category")
+    name = ch.get("name")
+    idx = peel(kids(ch)[0])
+    if not (idx.get("kind") == "CXXOperatorCallExpr" and X.callee_name(idx) == "operator[]" and
+            member_chain(kids(idx)[1]) == ["$this", "views_"] and
+            strip(kids(idx)[2]).get("referencedDecl", {}).get("name") == cparam):
+        raise Refuse("roulette: the view is not views_[%s].<view>" % cparam)
+    return name
+
+
+def view_roulette(n, cparam):
+    """the view V of `views_[c].V.roulette()` (possibly static_cast to function / terminal)"""
+    n = peel(n)
+    while n.get("kind") in ("CXXStaticCastExpr", "ImplicitCastExpr") and n.get("castKind") in ("BaseToDerived", "NoOp", "DerivedToBase") \
+            and len(kids(n)) == 1:
+        n = peel(kids(n)[0])
+    if n.get("kind") != "CXXMemberCallExpr":
+        raise Refuse("roulette: the result is not a call")
+    f = peel(kids(n)[0])
+    if f.get("kind") != "MemberExpr" or f.get("name") != "roulette" or len(kids(n)) != 1:
+        raise Refuse("roulette: the result is not <view>.roulette()")
+    return view_of(kids(f)[0], cparam)
+
+
+def tr_roulette(res):
+    docs = X.ast_dump(SS_TU, "vita::symbol_set::roulette")
+    # symbol_set::roulette(c)
+    d = find_decl(docs, "CXXMethodDecl", "roulette")[0]
+    c = params_of(d)[0].get("name")
+    st = [x for x in kids(body_of(d)) if x.get("kind") != "NullStmt"]
+    if len(st) != 2 or st[0].get("kind") != "IfStmt" or st[1].get("kind") != "ReturnStmt" or len(kids(st[0])) != 2:
+        raise Refuse("symbol_set::roulette: shape")
+    cond, then = kids(st[0])
+    cond = peel(cond)
+    if not (cond.get("kind") == "BinaryOperator" and cond.get("opcode") == "&&"):
+        raise Refuse("symbol_set::roulette: the guard is not a conjunction")
+    g1, g2 = kids(cond)
+    fc = free_call(g1)
+    if not (fc and fc[0] == "boolean" and not fc[1]):
+        raise Refuse("symbol_set::roulette: the first conjunct is not random::boolean()")
+    mc = peel(unbool(g2))
+    if mc.get("kind") != "CXXMemberCallExpr":
+        raise Refuse("symbol_set::roulette: the second conjunct is not <view>.size()")
+    f = peel(kids(mc)[0])
+    if f.get("kind") != "MemberExpr" or f.get("name") != "size":
+        raise Refuse("symbol_set::roulette: the second conjunct is not <view>.size()")
+    if then.get("kind") != "ReturnStmt":
+        raise Refuse("symbol_set::roulette: the guarded statement is not a return")
+    res["rouletteSel"] = {"coin": True, "guard": view_of(kids(f)[0], c), "then": view_roulette(kids(then)[0], c),
+                          "else": view_roulette(kids(st[1])[0], c)}
+    # symbol_set::roulette_terminal(c)
+    d = find_decl(docs, "CXXMethodDecl", "roulette_terminal")[0]
+    c = params_of(d)[0].get("name")
+    st = [x for x in kids(body_of(d)) if x.get("kind") != "NullStmt"]
+    if len(st) != 1 or st[0].get("kind") != "ReturnStmt":
+        raise Refuse("symbol_set::roulette_terminal: shape")
+    res["rouletteTerminal"] = view_roulette(kids(st[0])[0], c)
+    # symbol_set::insert: which symbols each view receives
+    docs = X.ast_dump(SS_TU, "vita::symbol_set::insert")
+    d = find_decl(docs, "CXXMethodDecl", "insert", lambda t: "unique_ptr" in t)[0]
+    sp = params_of(d)[0].get("name")
+    ins = []
+
+    def view_insert(n):
+        mc = member_call(n)
+        if not (mc and mc[1] == "insert" and len(mc[2]) == 1):
+            return None
+        f = peel(kids(peel(n))[0])
+        v = peel_base(kids(f)[0])
+        if v.get("kind") != "MemberExpr":
+            return None
+        idx = peel(kids(v)[0])
+        if not (idx.get("kind") == "CXXOperatorCallExpr" and X.callee_name(idx) == "operator[]" and
+                member_chain(kids(idx)[1]) == ["$this", "views_"] and
+                strip(kids(idx)[2]).get("referencedDecl", {}).get("name") == "category"):
+            raise Refuse("symbol_set::insert: a view of something else than views_[category]")
+        return v.get("name")
+
+    for stx in kids(body_of(d)):
+        v = view_insert(stx)
+        if v is not None:
+            ins.append((v, "always"))
+        elif stx.get("kind") == "IfStmt":
+            ks = kids(stx)
+            mc = member_call(ks[0])
+            if mc and mc[1] == "terminal" and not mc[2] and len(ks) == 3:
+                obj = peel(kids(peel(kids(peel(ks[0]))[0]))[0])
+                who = X.find_all(obj, lambda x: x.get("kind") == "DeclRefExpr" and
+                                 not x.get("referencedDecl", {}).get("name", "").startswith("operator"))
+                if not (who and who[0].get("referencedDecl", {}).get("name") == sp):
+                    raise Refuse("symbol_set::insert: terminal() of something else than the inserted symbol")
+                a, b = view_insert(ks[1]), view_insert(ks[2])
+                if a is None or b is None:
+                    raise Refuse("symbol_set::insert: the branches on terminal() do not insert into views")
+                ins += [(a, "terminal()"), (b, "!terminal()")]
+    res["viewInsert"] = ins
+
+    # sum_container::roulette(): the wedge loop
+    docs = X.ast_dump(SS_TU, "vita::symbol_set::collection::sum_container::roulette")
+    d = find_decl(docs, "CXXMethodDecl", "roulette")[0]
+    st = [x for x in kids(body_of(d)) if x.get("kind") not in ("NullStmt",)]
+    st = [x for x in st if not (x.get("kind") == "ParenExpr" and "void" in qtype(x))]     # assert() under NDEBUG
+    if len(st) != 4 or st[0].get("kind") != "DeclStmt" or st[1].get("kind") != "DeclStmt" or \
+            st[2].get("kind") != "ForStmt" or st[3].get("kind") != "ReturnStmt":
+        raise Refuse("sum_container::roulette: shape %r" % [x.get("kind") for x in st])
+    vslot, vidx = kids(st[0])[0], kids(st[1])[0]
+    fc = free_call(kids(vslot)[0])
+    if not (fc and fc[0] == "sup" and len(fc[1]) == 1):
+        raise Refuse("sum_container::roulette: the slot is not random::sup(…)")
+    mc = member_call(fc[1][0])
+    if not (mc and mc[0] == ["$this"] and mc[1] == "sum" and not mc[2]):
+        raise Refuse("sum_container::roulette: the slot is not drawn below sum()")
+    names = {vslot.get("name"): ("slot",), vidx.get("name"): ("idx",)}
+    init, condvar, cond, inc, body = st[2].get("inner")
+    if condvar not in ({}, None) and condvar.get("kind") is not None:
+        raise Refuse("sum_container::roulette: condition variable")
+    vacc = kids(init)[0]
+    if init.get("kind") != "DeclStmt" or len(kids(init)) != 1:
+        raise Refuse("sum_container::roulette: for-init")
+    if body.get("kind") != "CompoundStmt" or kids(body):
+        raise Refuse("sum_container::roulette: the loop body is not empty")
+
+    def we(n, eff):
+        """expression over (idx, acc, slot, weights); `eff` collects (pre, post) increments of the index"""
+        n = strip(n)
+        k = n.get("kind")
+        if k == "IntegerLiteral":
+            return ("lit", int(n.get("value")))
+        if k == "DeclRefExpr":
+            nm = n.get("referencedDecl", {}).get("name")
+            if nm in names:
+                return names[nm]
+            raise Refuse("sum_container::roulette: unknown name %r" % nm)
+        if k == "BinaryOperator" and n.get("opcode") == "+":
+            a, b = kids(n)
+            return ("add", we(a, eff), we(b, eff))
+        if k == "UnaryOperator" and n.get("opcode") == "++":
+            t = strip(kids(n)[0])
+            if names.get(t.get("referencedDecl", {}).get("name")) != ("idx",):
+                raise Refuse("sum_container::roulette: ++ of something else than the index")
+            if eff is None or eff["pre"] or eff["post"]:
+                raise Refuse("sum_container::roulette: increment in an unexpected place")
+            eff["post" if n.get("isPostfix") else "pre"] = True
+            return ("idx",)
+        if k == "MemberExpr" and n.get("name") == "weight":
+            e = peel(kids(n)[0])
+            if e.get("kind") == "CXXOperatorCallExpr" and X.callee_name(e) == "operator[]" and \
+                    member_chain(kids(e)[1]) == ["$this", "elems_"]:
+                return ("wt", we(kids(e)[2], eff))
+        raise Refuse("sum_container::roulette: expression of kind %s" % k)
+
+    acc0 = we(kids(vacc)[0], None)
+    names[vacc.get("name")] = ("acc",)
+    idx0 = we(kids(vidx)[0], None)
+    c = strip(cond)
+    cmpop = {"<": "lt", ">": "gt", "<=": "le", ">=": "ge", "!=": "ne", "==": "eq"}.get(c.get("opcode")) \
+        if c.get("kind") == "BinaryOperator" else None
+    if cmpop is None:
+        raise Refuse("sum_container::roulette: loop condition")
+    lhs, rhs = [we(x, None) for x in kids(c)]
+    i = peel(inc)
+    if not (i.get("kind") == "CompoundAssignOperator" and i.get("opcode") == "+=" and
+            names.get(strip(kids(i)[0]).get("referencedDecl", {}).get("name")) == ("acc",)):
+        raise Refuse("sum_container::roulette: the step is not `wedge += …`")
+    eff = {"pre": False, "post": False}
+    add = we(kids(i)[1], eff)
+    step = []
+    if eff["pre"]:
+        step.append(("idx", ("add", ("idx",), ("lit", 1))))
+    step.append(("acc", ("add", ("acc",), add)))
+    if eff["post"]:
+        step.append(("idx", ("add", ("idx",), ("lit", 1))))
+    r = peel(kids(st[3])[0])
+    if not (r.get("kind") == "UnaryOperator" and r.get("opcode") == "*"):
+        raise Refuse("sum_container::roulette: result")
+    m = strip(kids(r)[0])
+    e = peel(kids(m)[0]) if m.get("kind") == "MemberExpr" and m.get("name") == "sym" else {}
+    if not (e.get("kind") == "CXXOperatorCallExpr" and X.callee_name(e) == "operator[]" and
+            member_chain(kids(e)[1]) == ["$this", "elems_"]):
+        raise Refuse("sum_container::roulette: the result is not *elems_[…].sym")
+    res["wedge"] = {"slotSup": "sum()", "idx0": idx0, "acc0": acc0, "cmp": cmpop, "lhs": lhs, "rhs": rhs,
+                    "step": step, "ret": we(kids(e)[2], None)}
+
+
+def lean_we(e):
+    t = e[0]
+    if t == "lit":
+        return "(.lit %d)" % e[1]
+    if t in ("idx", "acc", "slot"):
+        return "." + t
+    if t == "wt":
+        return "(.wt %s)" % lean_we(e[1])
+    if t == "add":
+        return "(.add %s %s)" % (lean_we(e[1]), lean_we(e[2]))
+    raise Refuse("wedge expression %r" % (t,))
+
+
+# ------------------------------------------------------------------ locus::operator< and random_locus
+def tr_walk(res):
+    docs = X.ast_dump(TU, "vita::operator<")
+    cands = []
+    for d in docs:
+        cands += X.find_all(d, lambda x: x.get("kind") == "FunctionDecl" and x.get("name") == "operator<" and
+                            body_of(x) is not None and qtype(x).startswith("bool (const vita::locus &, const vita::locus &)"))
+    if not cands:
+        raise Refuse("no operator<(const locus &, const locus &)")
+    d = cands[0]
+    p1, p2 = [x.get("name") for x in params_of(d)]
+    st = [x for x in kids(body_of(d)) if x.get("kind") != "NullStmt"]
+    if len(st) != 1 or st[0].get("kind") != "ReturnStmt":
+        raise Refuse("operator<(locus, locus): shape")
+    fields = {(p1, "index"): 0, (p1, "category"): 1, (p2, "index"): 2, (p2, "category"): 3}
+
+    def be(n):
+        n = strip(n)
+        k = n.get("kind")
+        if k == "BinaryOperator":
+            a, b = kids(n)
+            op = n.get("opcode")
+            if op == "||":
+                return "(.or %s %s)" % (be(a), be(b))
+            if op == "&&":
+                return "(.and %s %s)" % (be(a), be(b))
+            c = {"<": "lt", ">": "gt", "<=": "le", ">=": "ge", "!=": "ne", "==": "eq"}.get(op)
+            if c:
+                return "(.cmp .%s %s %s)" % (c, be(a), be(b))
+            raise Refuse("operator<(locus, locus): operator %r" % op)
+        if k == "UnaryOperator" and n.get("opcode") == "!":
+            return "(.not %s)" % be(kids(n)[0])
+        ch = member_chain(n)
+        if ch and len(ch) == 2 and (ch[0][1:], ch[1]) in fields:
+            return "(.var %d)" % fields[(ch[0][1:], ch[1])]
+        raise Refuse("operator<(locus, locus): expression of kind %s" % k)
+
+    res["locusLess"] = be(kids(st[0])[0])
+
+    docs = X.ast_dump(TU, "vita::random_locus")
+    d = find_decl(docs, "FunctionDecl", "random_locus")[0]
+    prg = params_of(d)[0].get("name")
+    st = [x for x in kids(body_of(d)) if x.get("kind") != "NullStmt"]
+    if [x.get("kind") for x in st] != ["DeclStmt", "DeclStmt", "DoStmt", "ReturnStmt"]:
+        raise Refuse("random_locus: shape %r" % [x.get("kind") for x in st])
+    vset, vit = kids(st[0])[0], kids(st[1])[0]
+    w = {}
+    if qtype(vset).replace("class ", "") not in ("std::set<vita::locus>",):
+        raise Refuse("random_locus: the work set is a %r" % qtype(vset))
+    w["container"] = "std::set<locus>"
+    il = X.find_all(vset, lambda x: x.get("kind") == "InitListExpr")
+    if not (il and len(kids(il[0])) == 1):
+        raise Refuse("random_locus: initial content of the set")
+    mc = member_call(kids(il[0])[0])
+    if not (mc and mc[0] == ["$" + prg] and mc[1] == "best" and not mc[2]):
+        raise Refuse("random_locus: the set does not start as {prg.best()}")
+    w["init"] = "{prg.best()}"
+    mc = member_call(kids(vit)[0])
+    if not (mc and mc[0] == ["$" + vset.get("name")] and mc[1] == "begin"):
+        raise Refuse("random_locus: the cursor does not start at begin()")
+    w["cursor"] = "begin()"
+    body, cond = kids(st[2])
+    bs = [x for x in kids(body) if x.get("kind") != "NullStmt"]
+    if len(bs) != 2 or bs[0].get("kind") != "DeclStmt":
+        raise Refuse("random_locus: loop body")
+    vargs = kids(bs[0])[0]
+    mc = member_call(kids(vargs)[0])
+    ok = False
+    if mc and mc[1] == "arguments" and not mc[2]:
+        f = peel(kids(peel(kids(vargs)[0]))[0])
+        obj = peel(kids(f)[0])
+        if obj.get("kind") == "CXXOperatorCallExpr" and X.callee_name(obj) == "operator[]":
+            o2 = kids(obj)
+            who = peel(o2[1]).get("referencedDecl", {}).get("name")
+            arg = peel(o2[2])
+            if arg.get("kind") == "CXXConstructExpr" and len(kids(arg)) == 1:
+                arg = peel(kids(arg)[0])
+            ok = who == prg and arg.get("kind") == "CXXOperatorCallExpr" and X.callee_name(arg) == "operator*" and \
+                peel(kids(arg)[1]).get("referencedDecl", {}).get("name") == vit.get("name")
+    if not ok:
+        raise Refuse("random_locus: the loop does not take prg[*iter].arguments()")
+    mc = member_call(bs[1])
+    if not (mc and mc[0] == ["$" + vset.get("name")] and mc[1] == "insert" and len(mc[2]) == 2):
+        raise Refuse("random_locus: the loop does not insert a range into the set")
+    m1, m2 = member_call(mc[2][0]), member_call(mc[2][1])
+    if not (m1 and m2 and m1[0] == ["$" + vargs.get("name")] and m1[1] == "begin" and
+            m2[0] == ["$" + vargs.get("name")] and m2[1] == "end"):
+        raise Refuse("random_locus: the inserted range is not args.begin() .. args.end()")
+    w["expand"] = "insert:prg[*iter].arguments()"
+    c = peel(cond)
+    ok = False
+    if c.get("kind") == "CXXOperatorCallExpr" and X.callee_name(c) == "operator!=":
+        a, b = kids(c)[1:]
+        a = peel(a)
+        mb = member_call(b)
+        ok = a.get("kind") == "CXXOperatorCallExpr" and X.callee_name(a) == "operator++" and len(kids(a)) == 2 and \
+            peel(kids(a)[1]).get("referencedDecl", {}).get("name") == vit.get("name") and \
+            mb is not None and mb[0] == ["$" + vset.get("name")] and mb[1] == "end"
+    if not ok:
+        raise Refuse("random_locus: the loop does not run while ++iter != set.end()")
+    w["advance"] = "do-while:++iter!=end()"
+    r = peel(kids(st[3])[0])
+    if r.get("kind") == "CXXConstructExpr" and len(kids(r)) == 1:
+        r = peel(kids(r)[0])
+    fc = free_call(r)
+    ok = False
+    if fc and fc[0] == "element" and len(fc[1]) == 1:
+        a = peel(fc[1][0])
+        f2 = free_call(a)
+        if f2 and f2[0] == "as_const" and len(f2[1]) == 1:
+            a = peel(f2[1][0])
+        ok = a.get("referencedDecl", {}).get("name") == vset.get("name")
+    if not ok:
+        raise Refuse("random_locus: the result is not random::element(set)")
+    w["result"] = "random::element(set)"
+    res["randomLocus"] = w
+
+
+# ------------------------------------------------------------------ i_mep::basic_iterator (begin() .. end(): the exons)
+def tr_iterator(res):
+    docs = X.ast_dump(TU, "vita::i_mep::basic_iterator")
+    spec = []
+    for d in docs:
+        spec += X.find_all(d, lambda x: x.get("kind") == "ClassTemplateSpecializationDecl" and x.get("name") == "basic_iterator")
+    spec = [s_ for s_ in spec if any(c.get("kind") == "CXXMethodDecl" and c.get("name") == "operator++" and body_of(c) is not None
+                                      for c in kids(s_))]
+    # the non-const instantiation is the one `mutation` uses
+    spec = [s_ for s_ in spec if any(c.get("kind") == "TypeAliasDecl" and c.get("name") == "ind" and qtype(c) == "vita::i_mep"
+                                      for c in kids(s_))]
+    if not spec:
+        raise Refuse("i_mep::basic_iterator<false> is not instantiated")
+    cls = spec[0]
+
+    def this_loci(n):
+        return member_chain(n) == ["$this", "loci_"]
+
+    def loci_call(n, meth, nargs):
+        """args of `loci_.<meth>(…)`"""
+        mc = member_call(n)
+        if not (mc and mc[0] == ["$this", "loci_"] and mc[1] == meth and len(mc[2]) == nargs):
+            return None
+        return mc[2]
+
+    def is_loci_begin(n, names=("begin", "cbegin")):
+        mc = member_call(n)
+        return mc is not None and mc[0] == ["$this", "loci_"] and mc[1] in names and not mc[2]
+
+    fr = {}
+    fields = [c.get("name") for c in kids(cls) if c.get("kind") == "FieldDecl"]
+    if fields != ["loci_", "ind_"]:
+        raise Refuse("basic_iterator: fields %r" % fields)
+    lf = [c for c in kids(cls) if c.get("kind") == "FieldDecl" and c.get("name") == "loci_"][0]
+    if qtype(lf) != "std::set<vita::locus>":
+        raise Refuse("basic_iterator: loci_ is a %r" % qtype(lf))
+    fr["container"] = "std::set<locus>"
+    ctors = [c for c in kids(cls) if c.get("kind") == "CXXConstructorDecl" and body_of(c) is not None and not c.get("isImplicit")]
+    c0 = [c for c in ctors if not params_of(c)]
+    c1 = [c for c in ctors if len(params_of(c)) == 1 and "ind &" in qtype(c)]
+    if len(c0) != 1 or len(c1) != 1:
+        raise Refuse("basic_iterator: constructors")
+    # basic_iterator() : loci_(), ind_(nullptr) {}
+    i0 = [i for i in kids(c0[0]) if i.get("kind") == "CXXCtorInitializer"]
+    e0 = peel(kids(i0[0])[0]) if i0 and kids(i0[0]) else {}
+    if not (len(i0) == 2 and e0.get("kind") == "CXXConstructExpr" and not kids(e0) and kids(body_of(c0[0])) == []):
+        raise Refuse("basic_iterator(): the sentinel does not have an empty set")
+    fr["sentinel"] = "loci_()"
+    # basic_iterator(ind &id) : loci_({id.best()}), ind_(&id) {}
+    idn = params_of(c1[0])[0].get("name")
+    i1 = [i for i in kids(c1[0]) if i.get("kind") == "CXXCtorInitializer"]
+    il = X.find_all(i1[0], lambda x: x.get("kind") == "InitListExpr") if i1 else []
+    mc = member_call(kids(il[0])[0]) if il and len(kids(il[0])) == 1 else None
+    a1 = peel(kids(i1[1])[0]) if len(i1) == 2 else {}
+    if not (mc and mc[0] == ["$" + idn] and mc[1] == "best" and not mc[2] and a1.get("kind") == "UnaryOperator" and
+            a1.get("opcode") == "&" and peel(kids(a1)[0]).get("referencedDecl", {}).get("name") == idn and
+            kids(body_of(c1[0])) == []):
+        raise Refuse("basic_iterator(id): not loci_({id.best()}), ind_(&id)")
+    fr["init"] = "{id.best()}"
+
+    def method(name):
+        ms = [c for c in kids(cls) if c.get("kind") == "CXXMethodDecl" and c.get("name") == name and body_of(c) is not None]
+        if len(ms) != 1:
+            raise Refuse("basic_iterator::%s: %d definitions" % (name, len(ms)))
+        return ms[0]
+
+    # locus() = *loci_.cbegin()
+    st = [x for x in kids(body_of(method("locus"))) if x.get("kind") != "NullStmt"]
+    r = peel(kids(st[0])[0]) if len(st) == 1 and st[0].get("kind") == "ReturnStmt" else {}
+    if r.get("kind") == "CXXConstructExpr" and len(kids(r)) == 1:
+        r = peel(kids(r)[0])
+    if not (r.get("kind") == "CXXOperatorCallExpr" and X.callee_name(r) == "operator*" and is_loci_begin(kids(r)[1])):
+        raise Refuse("basic_iterator::locus() is not *loci_.cbegin()")
+    # operator*() = ind_->genome_(locus())
+    st = [x for x in kids(body_of(method("operator*"))) if x.get("kind") != "NullStmt"]
+    r = peel(kids(st[0])[0]) if len(st) == 1 and st[0].get("kind") == "ReturnStmt" else {}
+    ok = False
+    if r.get("kind") == "CXXOperatorCallExpr" and X.callee_name(r) == "operator()" and len(kids(r)) == 3:
+        g = peel(kids(r)[1])
+        own = peel(kids(g)[0]) if g.get("kind") == "MemberExpr" and g.get("name") == "genome_" and kids(g) else {}
+        mcl = member_call(kids(r)[2])
+        ok = member_chain(own) == ["$this", "ind_"] and mcl is not None and mcl[0] == ["$this"] and mcl[1] == "locus" and not mcl[2]
+    if not ok:
+        raise Refuse("basic_iterator::operator*() is not ind_->genome_(locus())")
+    fr["deref"] = "ind_->genome_(*loci_.cbegin())"
+    # operator==: (loci_.empty() && rhs.loci_.empty()) || loci_.cbegin() == rhs.loci_.cbegin()
+    m = method("operator==")
+    rhs = params_of(m)[0].get("name")
+    st = [x for x in kids(body_of(m)) if x.get("kind") != "NullStmt"]
+    e = strip(kids(st[0])[0]) if len(st) == 1 and st[0].get("kind") == "ReturnStmt" else {}
+    ok = False
+    if e.get("kind") == "BinaryOperator" and e.get("opcode") == "||":
+        l, r = [strip(x) for x in kids(e)]
+        if l.get("kind") == "BinaryOperator" and l.get("opcode") == "&&":
+            m1, m2 = [member_call(x) for x in kids(l)]
+            both = m1 and m2 and m1[1] == "empty" and m2[1] == "empty" and m1[0] == ["$this", "loci_"] and m2[0] == ["$" + rhs, "loci_"]
+            if both and r.get("kind") == "CXXOperatorCallExpr" and X.callee_name(r) == "operator==":
+                b1, b2 = [member_call(x) for x in kids(r)[1:]]
+                ok = bool(b1 and b2 and b1[1] == "cbegin" and b2[1] == "cbegin" and b1[0] == ["$this", "loci_"] and
+                          b2[0] == ["$" + rhs, "loci_"])
+    if not ok:
+        raise Refuse("basic_iterator::operator== has an unknown shape")
+    m = method("operator!=")
+    st = [x for x in kids(body_of(m)) if x.get("kind") != "NullStmt"]
+    e = strip(kids(st[0])[0]) if len(st) == 1 and st[0].get("kind") == "ReturnStmt" else {}
+    inner = strip(kids(e)[0]) if e.get("kind") == "UnaryOperator" and e.get("opcode") == "!" else {}
+    if not (inner.get("kind") == "CXXOperatorCallExpr" and X.callee_name(inner) == "operator=="):
+        raise Refuse("basic_iterator::operator!= is not !(*this == rhs)")
+    fr["atEnd"] = "both-empty||same-cbegin"
+    # operator++
+    m = method("operator++")
+    st = [x for x in kids(body_of(m)) if x.get("kind") != "NullStmt"]
+    if len(st) != 2 or st[0].get("kind") != "IfStmt" or st[1].get("kind") != "ReturnStmt" or len(kids(st[0])) != 2:
+        raise Refuse("basic_iterator::operator++: shape")
+    g, blk = kids(st[0])
+    g = strip(g)
+    mg = member_call(kids(g)[0]) if g.get("kind") == "UnaryOperator" and g.get("opcode") == "!" else None
+    if not (mg and mg[0] == ["$this", "loci_"] and mg[1] == "empty"):
+        raise Refuse("basic_iterator::operator++ is not guarded by !loci_.empty()")
+    bs = [x for x in kids(blk) if x.get("kind") != "NullStmt"]
+    if len(bs) != 2 or bs[0].get("kind") != "DeclStmt" or bs[1].get("kind") != "IfStmt" or len(kids(bs[1])) != 3:
+        raise Refuse("basic_iterator::operator++: body")
+    vargs = kids(bs[0])[0]
+    an = vargs.get("name")
+    ma = peel(kids(vargs)[0])
+    ok = False
+    if ma.get("kind") == "CXXMemberCallExpr":
+        f = peel(kids(ma)[0])
+        if f.get("kind") == "MemberExpr" and f.get("name") == "arguments" and len(kids(ma)) == 1:
+            md = member_call(kids(f)[0])
+            ok = md is not None and md[0] == ["$this"] and md[1] == "operator*" and not md[2]
+    if not ok:
+        raise Refuse("basic_iterator::operator++: args is not (**this).arguments()")
+    c, t, e = kids(bs[1])
+    mc = member_call(c)
+    if not (mc and mc[0] == ["$" + an] and mc[1] == "empty"):
+        raise Refuse("basic_iterator::operator++: the case split is not on args.empty()")
+    er = loci_call(t, "erase", 1)
+    if not (er and is_loci_begin(er[0])):
+        raise Refuse("basic_iterator::operator++: a leaf is not removed by loci_.erase(loci_.begin())")
+    es = [x for x in kids(e) if x.get("kind") != "NullStmt"]
+    if len(es) != 4 or es[0].get("kind") != "DeclStmt":
+        raise Refuse("basic_iterator::operator++: else branch")
+    vnode = kids(es[0])[0]
+    nn = vnode.get("name")
+    ex = loci_call(kids(vnode)[0], "extract", 1)
+    if not (ex and is_loci_begin(ex[0])):
+        raise Refuse("basic_iterator::operator++: node is not loci_.extract(loci_.begin())")
+    asg = peel(es[1])
+    ok = False
+    if asg.get("kind") == "CXXOperatorCallExpr" and X.callee_name(asg) == "operator=":
+        l, r = kids(asg)[1:]
+        ml, mr = member_call(l), member_call(r)
+        ok = bool(ml and mr and ml[0] == ["$" + nn] and ml[1] == "value" and mr[0] == ["$" + an] and mr[1] == "front")
+    if not ok:
+        raise Refuse("basic_iterator::operator++: node.value() = args.front()")
+    i1_ = loci_call(es[2], "insert", 1)
+    fc = free_call(i1_[0]) if i1_ else None
+    if not (fc and fc[0] == "move" and peel(fc[1][0]).get("referencedDecl", {}).get("name") == nn):
+        raise Refuse("basic_iterator::operator++: loci_.insert(std::move(node))")
+    i2 = loci_call(es[3], "insert", 2)
+    ok = False
+    if i2:
+        fn = free_call(i2[0])
+        me = member_call(i2[1])
+        if fn and fn[0] == "next" and len(fn[1]) == 1:
+            mb = member_call(fn[1][0])
+            ok = bool(mb and mb[0] == ["$" + an] and mb[1] == "begin" and me and me[0] == ["$" + an] and me[1] == "end")
+    if not ok:
+        raise Refuse("basic_iterator::operator++: loci_.insert(std::next(args.begin()), args.end())")
+    fr["advance"] = "if(!empty){args:=(**this).arguments();empty?erase(begin()):replace(begin(),args.front())+insert(rest)}"
+    # i_mep::begin() / end()
+    for nm, nargs in (("begin", 1), ("end", 0)):
+        dd = X.ast_dump(TU, "vita::i_mep::" + nm)
+        ms = []
+        for d in dd:
+            ms += X.find_all(d, lambda x: x.get("kind") == "CXXMethodDecl" and x.get("name") == nm and body_of(x) is not None and
+                             qtype(x).startswith("i_mep::iterator"))
+        if len(ms) != 1:
+            raise Refuse("i_mep::%s(): %d non-const definitions" % (nm, len(ms)))
+        rets = [x for x in kids(body_of(ms[0])) if x.get("kind") == "ReturnStmt"]
+        other = [x for x in kids(body_of(ms[0])) if x.get("kind") not in ("ReturnStmt", "NullStmt") and not Ctx(None, None).ignorable(x)]
+        ce = X.find_all(rets[0], lambda x: x.get("kind") in ("CXXConstructExpr", "CXXTemporaryObjectExpr") and
+                        "basic_iterator" in qtype(x)) if len(rets) == 1 else []
+        ce = [x for x in ce if not (len(kids(x)) == 1 and "basic_iterator" in qtype(kids(x)[0]))]    # skip copy/move
+        if other or not ce:
+            raise Refuse("i_mep::%s(): shape" % nm)
+        args = kids(ce[-1])
+        if nargs == 1:
+            a = peel(args[0]) if len(args) == 1 else {}
+            if not (a.get("kind") == "UnaryOperator" and a.get("opcode") == "*" and peel(kids(a)[0]).get("kind") == "CXXThisExpr"):
+                raise Refuse("i_mep::begin() is not iterator(*this)")
+        elif args:
+            raise Refuse("i_mep::end() is not iterator()")
+    fr["beginEnd"] = "begin():iterator(*this);end():iterator()"
+    res["exonIter"] = fr
+
+
 def extract():
     res = {}
-    for f in (tr_ctor, tr_mutation, tr_crossover, tr_destroy, tr_get_block, tr_gene, tr_team):
+    for f in (tr_ctor, tr_mutation, tr_crossover, tr_destroy, tr_get_block, tr_gene, tr_team, tr_roulette, tr_walk, tr_iterator):
         try:
             f(res)
         except (KeyError, IndexError, AttributeError, TypeError, ValueError) as e:
@@ -1176,7 +1751,7 @@ def strs(l):
 
 def render(res):
     L = ["/- GENERATED by tools/translate_mep_ops.py from the clang AST of src/kernel/gp/mep/i_mep.cc,",
-         "   src/kernel/gp/gene.tcc and src/kernel/gp/team.tcc – do not edit.",
+         "   src/kernel/gp/gene.tcc, src/kernel/gp/team.tcc, src/kernel/gp/locus.h and src/kernel/symbol_set.cc – do not edit.",
          "   Syntax only; the meaning is in Vita/C02/GenSem.lean, the proofs in Vita/C02/Props.lean (gen_*). -/",
          "import Vita.C02.GenSem",
          "namespace Vita.C02.Gen",
@@ -1184,6 +1759,8 @@ def render(res):
     L += ["/-- enum i_mep::crossover_t (without NUM_CROSSOVERS) -/", "def flavours : List String := " + strs(res["flavours"]), ""]
     L += ["/-- i_mep::i_mep(const problem &): genome writes in program order -/", "def ctor : List Write := " + lean_writes(res["ctor"]), ""]
     L += ["def ctorBest : E × E := (%s, %s)" % (lean_e(res["ctorBest"][0]), lean_e(res["ctorBest"][1])), ""]
+    L += ["/-- i_mep(const problem &): genome_(rows, columns) – `.var 11` = env.mep.code_length, `.var 12` = sset.categories() -/",
+          "def ctorDims : E × E := (%s, %s)" % (lean_e(res["ctorDims"][0]), lean_e(res["ctorDims"][1])), ""]
     L += ["/-- i_mep::mutation: the gene drawn for the locus (row `.var 3`, column `.var 4`) of the iterator -/",
           "def mutationCand : Src := " + lean_src(res["mutationCand"]), "",
           "def mutationShape : List String := " + strs(res["mutationShape"]), ""]
@@ -1205,6 +1782,29 @@ def render(res):
         t = res[k]
         L += ["def %s : TeamLoop := { range := ⟨%s, %s, %s⟩, op := \"%s\", n := \"%s\" }" % (
             k, lean_e(t["range"][0]), lean_e(t["range"][1]), "true" if t["range"][2] else "false", t["op"], t["n"]), ""]
+    wd = res["wedge"]
+    L += ["/-- symbol_set::collection::sum_container::roulette(): the wedge loop -/",
+          "def wedge : WedgeLoop :=\n  { slotSup := \"%s\", idx0 := %s, acc0 := %s,\n    cmp := .%s, lhs := %s, rhs := %s,\n    step := [%s],\n    ret := %s }" % (
+              wd["slotSup"], lean_we(wd["idx0"]), lean_we(wd["acc0"]), wd["cmp"], lean_we(wd["lhs"]), lean_we(wd["rhs"]),
+              ", ".join("(.%s, %s)" % (v, lean_we(e)) for v, e in wd["step"]), lean_we(wd["ret"])), ""]
+    rs = res["rouletteSel"]
+    L += ["/-- symbol_set::roulette(c): `if (boolean() && views_[c].G.size()) return views_[c].T.roulette(); return views_[c].E.roulette();` -/",
+          "def rouletteSel : Sel := { coin := %s, guardView := \"%s\", thenView := \"%s\", elseView := \"%s\" }" % (
+              "true" if rs["coin"] else "false", rs["guard"], rs["then"], rs["else"]), "",
+          "/-- symbol_set::roulette_terminal(c): the view asked -/",
+          "def rouletteTerminal : String := \"%s\"" % res["rouletteTerminal"], "",
+          "/-- symbol_set::insert: the views of `views_[category]` the new symbol enters, and when -/",
+          "def viewInsert : List (String × String) := [" + ", ".join('("%s", "%s")' % x for x in res["viewInsert"]) + "]", ""]
+    L += ["/-- operator<(const locus &l1, const locus &l2): `.var 0/1` = l1.index/category, `.var 2/3` = l2.index/category -/",
+          "def locusLess : E := " + res["locusLess"], ""]
+    rl = res["randomLocus"]
+    L += ["/-- random_locus(prg) -/",
+          "def randomLocus : Walk :=\n  { container := \"%s\", init := \"%s\", cursor := \"%s\",\n    expand := \"%s\", advance := \"%s\", result := \"%s\" }" % (
+              rl["container"], rl["init"], rl["cursor"], rl["expand"], rl["advance"], rl["result"]), ""]
+    it = res["exonIter"]
+    L += ["/-- i_mep::basic_iterator (what `begin() .. end()` of an individual scans) -/",
+          "def exonIter : Frontier :=\n  { container := \"%s\", init := \"%s\", sentinel := \"%s\", deref := \"%s\",\n    advance := \"%s\",\n    atEnd := \"%s\", beginEnd := \"%s\" }" % (
+              it["container"], it["init"], it["sentinel"], it["deref"], it["advance"], it["atEnd"], it["beginEnd"]), ""]
     L += ["def teamMutation : List String := " + strs(res["teamMutation"]), "",
           "def teamIncAge : List String := " + strs(res["teamIncAge"]), "",
           "end Vita.C02.Gen"]
